@@ -150,6 +150,26 @@ EffMerge(M, N) ==
      THEN R(M, "KeyError")                                 \* reachable only "asShipped"
      ELSE R(Glue(M, N, base), "none")
 
+(* system-level operations, expressed with the same effect operators *)
+\* MergeAllMolecules: every later molecule of the system is merged into the first one, in system order
+RECURSIVE FoldMerge(_, _, _)
+FoldMerge(M, heap, ids) == IF ids = <<>> THEN M ELSE FoldMerge(EffMerge(M, heap[Head(ids)]).mol, heap, Tail(ids))
+
+\* MergeChains(chains): a NEW molecule receives, in system order, every molecule all of whose atoms carry a chain
+\* (here: the `tag` attribute) from `chains`; the others are left alone
+TagsOf(M) == {M.nodes[i].tag : i \in Idx(M)}
+Selected(heap, ids, chains) == SelectSeq(ids, LAMBDA i : TagsOf(heap[i]) \subseteq chains)
+MergedChains(heap, ids, chains) == FoldMerge(EmptyMol, heap, Selected(heap, ids, chains))
+
+\* Block.to_molecule(atom_offset, offset_resid, offset_charge_group): the block's atoms, in order, get the keys
+\* atom_offset, atom_offset + 1, ...; residue numbers and charge groups are shifted; bonds and interactions follow
+ToMolecule(B, off, dres, dcg) ==
+  LET new(k) == off + PosOf(B, k) - 1 IN
+  [nodes |-> [i \in Idx(B) |-> [key |-> off + i - 1, resid |-> B.nodes[i].resid + dres, cg |-> B.nodes[i].cg + dcg, tag |-> B.nodes[i].tag]],
+   edges |-> {Norm(new(e[1]), new(e[2])) : e \in B.edges},
+   inter |-> [t \in Types |-> [j \in DOMAIN B.inter[t] |-> [B.inter[t][j] EXCEPT !.atoms = [p \in DOMAIN B.inter[t][j].atoms |-> new(B.inter[t][j].atoms[p])]]]],
+   maxnode |-> NULL]
+
 -----------------------------------------------------------------------------
 (* actions *)
 Apply(m, r) == /\ steps < MaxDepth
